@@ -82,9 +82,13 @@ func TestLimits(t *testing.T) {
 			for _, fl := range []interp.Flags{interp.FlagAfterGenesis, interp.FlagAfterGenesis | interp.FlagMinimalData} {
 				for _, n := range []int{749999, 750000, 750001, 751000, 768000, 1000000} {
 					d := make([]byte, n)
-					d[0], d[n-1] = 0x07, 0x01                                                                                    // minimal, positive
-					yield(limProg(sgen.Push(d, 0), []byte{0x8b, 0x82, 0x75, 0x51}, fl))                                          // 1ADD SIZE DROP 1
-					yield(limProg(sgen.Push(d, 0), []byte{0x00, 0x93, 0x75, 0x51}, fl))                                          // 0 ADD DROP 1
+					d[0], d[n-1] = 0x07, 0x01 // minimal, positive
+					// (the library needs about 13 s to re-serialise a 750 kB result - see DESIGN 7.4 - so the
+					// arithmetic cases that succeed run in the thorough tier only)
+					if n > 750000 || tier == "thorough" {
+						yield(limProg(sgen.Push(d, 0), []byte{0x8b, 0x82, 0x75, 0x51}, fl)) // 1ADD SIZE DROP 1
+						yield(limProg(sgen.Push(d, 0), []byte{0x00, 0x93, 0x75, 0x51}, fl)) // 0 ADD DROP 1
+					}
 					yield(limProg(sgen.Push(d, 0), []byte{0x91, 0x51}, fl))                                                      // NOT 1 (unary, boolean result)
 					yield(limProg(sgen.Push(append(append([]byte{}, d...), 0x00, 0x00), 0), []byte{0x81, 0x82, 0x75, 0x51}, fl)) // BIN2NUM to n bytes
 				}
